@@ -39,6 +39,8 @@ CONSTANTS
                                  \* service decided who owns the instance (code before the fix)
     Defect_NoArmOnSync,          \* TRUE: an update that arrives by cluster sync never arms a time-out queue, and an
                                  \* unhealthy instance is armed in the healthy queue (code before fix 4a2756a)
+    Defect_EchoRemovesFlipped,   \* TRUE: the applied RemoveInstance entry removes the instance stored at the address also
+                                 \* when it is ephemeral by now (code before the fix)
     Defect_TakeoverKeepsOrigin   \* TRUE: a taken-over instance keeps its from-cluster mark, so the sweep skips it
                                  \* (code before the take-over fix)
 
@@ -75,6 +77,19 @@ QueryOf(is, healthyOnly) ==
     LET en == {a \in DOMAIN is : is[a].en}
         hl == {a \in en : is[a].h}
     IN IF en # {} /\ hl = {} THEN en ELSE IF healthyOnly THEN hl ELSE en
+\* the same with the service's protection threshold Prot[s]/2 (0 = the default, 1 = a threshold of 0.5 set through the
+\* service API): protection applies when healthy / enabled <= threshold, counted over the ENABLED instances - the list the
+\* query is about to return - and then every enabled instance is returned and REPORTED healthy.  Prot is a definition
+\* (all 0) that the front-door configuration overrides.
+Prot == [s \in Svcs |-> 0]
+Protected(s, is) ==
+    LET en == {a \in DOMAIN is : is[a].en}
+        hl == {a \in en : is[a].h}
+    IN en # {} /\ 2 * Cardinality(hl) <= Prot[s] * Cardinality(en)
+QueryOfS(s, is, healthyOnly) ==
+    LET en == {a \in DOMAIN is : is[a].en}
+        hl == {a \in en : is[a].h}
+    IN IF Protected(s, is) THEN en ELSE IF healthyOnly THEN hl ELSE en
 
 \* ------------------------------------------------------------------ Service::update_instance
 \* returns the new per-service pieces; `new` is the instance as the caller built it
@@ -96,7 +111,13 @@ SvcUpdate(s, a, new0, tag, fromSync) ==
               ELSE n1
         addPerp == IF exists0 THEN (~n2.eph /\ old.eph) ELSE ~n2.eph
         remPerp == exists0 /\ n2.eph /\ ~old.eph
-    IN [inst |-> Put(inst[s], a, n2),
+        \* what the node replicates afterwards (UpdatePerpetualType): a persistent instance that is new or whose
+        \* selected enabled flag / weight changed is written to Raft, an instance that stopped being persistent is
+        \* taken out of the replicated set (RaftEchoUpdate / RaftEchoRemove below are the applied entries)
+        tagNone == ~tag.weight /\ ~tag.metadata /\ ~tag.enabled /\ ~tag.ephemeral
+        pchanged == exists0 /\ tag # NoTag /\ ~tagNone /\ ((tag.enabled /\ old.en # n1.en) \/ (tag.weight /\ old.w # n1.w))
+        ptype == IF addPerp THEN "new" ELSE IF remPerp THEN "remove" ELSE IF ~n2.eph /\ pchanged THEN "update" ELSE "none"
+    IN [ptype |-> ptype, inst |-> Put(inst[s], a, n2),
         cnt |-> IF exists0 THEN cnt[s] ELSE cnt[s] + 1,
         hcnt |-> hcnt[s] + hdelta,
         perp |-> IF addPerp THEN perp[s] \cup {a} ELSE IF remPerp THEN perp[s] \ {a} ELSE perp[s],
@@ -128,9 +149,9 @@ DoUpdate(s, a, new0, tag, fromSync, opname) ==
        /\ index' = index \cup {s} /\ exists' = exists \cup {s}
        /\ UNCHANGED <<emptyAt, own, now>>
        /\ ops < MaxOps /\ ops' = ops + 1
-       /\ hist' = Rec(opname, [op |-> opname, s |-> s, a |-> a, new |-> new0, eff |-> new, tag |-> tag, from_sync |-> fromSync, now |-> now,
+       /\ hist' = Rec(opname, [op |-> opname, s |-> s, a |-> a, new |-> new0, eff |-> new, tag |-> tag, from_sync |-> fromSync, now |-> now, ptype |-> r.ptype,
                                 obs |-> [inst |-> inst', cnt |-> cnt', hcnt |-> hcnt', perp |-> perp', cset |-> cset', index |-> index',
-                                      q_all |-> [x \in Svcs |-> QueryOf(inst'[x], FALSE)], q_healthy |-> [x \in Svcs |-> QueryOf(inst'[x], TRUE)]]])
+                                      q_all |-> [x \in Svcs |-> QueryOfS(x, inst'[x], FALSE)], q_healthy |-> [x \in Svcs |-> QueryOfS(x, inst'[x], TRUE)], q_prot |-> [x \in Svcs |-> Protected(x, inst'[x])], prot |-> Prot]])
 
 HttpInst(eph, en, w) == [h |-> TRUE, en |-> en, eph |-> eph, grpc |-> FALSE, fc |-> FALSE, cl |-> "", lm |-> now, w |-> w]
 GrpcInst(c, eph, en, w) == [h |-> TRUE, en |-> en, eph |-> eph, grpc |-> TRUE, fc |-> FALSE, cl |-> c, lm |-> now, w |-> w]
@@ -144,6 +165,23 @@ RegisterGrpc(s, a, c, eph) == DoUpdate(s, a, GrpcInst(c, eph, TRUE, 1), NoTag, F
 UpdateWeight(s, a, w) == Has(s, a) /\ DoUpdate(s, a, HttpInst(TRUE, TRUE, w), [BeatTag EXCEPT !.weight = TRUE], FALSE, "update_weight")
 Beat(s, a) == DoUpdate(s, a, HttpInst(TRUE, TRUE, 1), BeatTag, FALSE, "beat")
 SyncUpdate(s, a, n, grpc, h) == DoUpdate(s, a, SyncInst(n, grpc, h), NoTag, TRUE, "sync_update")
+
+\* ------------------------------------------------------------------ the same operations as the ENTRY POINTS build them
+\* (front-door leg, SimRegistryFront.tla): every handler derives its own update tag from the request, and an existing
+\* instance keeps what the tag does not select.
+\*   HTTP  POST/PUT /nacos/v1/ns/instance (openapi/naming/instance.rs): weight selected iff it is given and not 1,
+\*         enabled / ephemeral selected iff the parameter is given (the leg always gives both), metadata not given
+\*   gRPC  InstanceRequest registerInstance (grpc/handler/naming_instance.rs): weight iff not 1, metadata always,
+\*         enabled only when the request DISABLES the instance, ephemeral never (an existing instance keeps its kind)
+ApiTagHttp(w) == [weight |-> w # 1, metadata |-> FALSE, enabled |-> TRUE, ephemeral |-> TRUE]
+ApiTagGrpc(en, w) == [weight |-> w # 1, metadata |-> TRUE, enabled |-> ~en, ephemeral |-> FALSE]
+ApiRegisterHttp(s, a, eph, en, w) == DoUpdate(s, a, HttpInst(eph, en, w), ApiTagHttp(w), FALSE, "api_register_http")
+ApiRegisterGrpc(s, a, c, eph, en, w) == DoUpdate(s, a, GrpcInst(c, eph, en, w), ApiTagGrpc(en, w), FALSE, "api_register_grpc")
+\* the gRPC request carries the instance's health as the client reports it (the HTTP handler always registers healthy)
+ApiRegisterGrpcH(s, a, c, eph, en, w, h) == DoUpdate(s, a, [GrpcInst(c, eph, en, w) EXCEPT !.h = h], ApiTagGrpc(en, w), FALSE, "api_register_grpc")
+\* PUT with the weight alone (w # 1): everything else is kept
+ApiUpdateWeight(s, a, w) == Has(s, a) /\ w # 1 /\ DoUpdate(s, a, HttpInst(TRUE, TRUE, w), [BeatTag EXCEPT !.weight = TRUE], FALSE, "api_update_weight")
+ApiBeat(s, a) == DoUpdate(s, a, HttpInst(TRUE, TRUE, 1), BeatTag, FALSE, "api_beat")
 
 \* ------------------------------------------------------------------ Service::remove_instance + NamingActor::remove_instance
 RemoveOne(st, s, a, client, checkClient) ==
@@ -170,7 +208,30 @@ Deregister(s, a, client) ==
     /\ ops < MaxOps /\ ops' = ops + 1
     /\ hist' = Rec("deregister", [op |-> "deregister", s |-> s, a |-> a, client |-> client, now |-> now,
                              obs |-> [inst |-> inst', cnt |-> cnt', hcnt |-> hcnt', perp |-> perp', cset |-> cset', index |-> index',
-                                      q_all |-> [x \in Svcs |-> QueryOf(inst'[x], FALSE)], q_healthy |-> [x \in Svcs |-> QueryOf(inst'[x], TRUE)]]])
+                                      q_all |-> [x \in Svcs |-> QueryOfS(x, inst'[x], FALSE)], q_healthy |-> [x \in Svcs |-> QueryOfS(x, inst'[x], TRUE)], q_prot |-> [x \in Svcs |-> Protected(x, inst'[x])], prot |-> Prot]])
+
+\* ------------------------------------------------------------------ the replicated side of persistent instances
+\* A node with Raft (every real node, a single one too) writes a persistent instance to the Raft log after the local
+\* update (NamingCmd::NotifyUpdateRaftInstance -> NamingRaftReq::UpdateInstance); the applied entry comes back through
+\* process_naming_raft_request as an update that carries no connection (InstanceRegisterParam has no client id):
+\* the instance stops belonging to the gRPC connection that registered it - which is how "a persistent instance is
+\* never removed when a connection ends" (C12) comes about.
+RaftEchoUpdate(s, a) ==
+    /\ Has(s, a) /\ ~inst[s][a].eph
+    /\ DoUpdate(s, a, [inst[s][a] EXCEPT !.grpc = FALSE, !.cl = "", !.fc = FALSE], NoTag, TRUE, "raft_echo_update")
+\* the applied NamingRaftReq::RemoveInstance that follows a persistent -> ephemeral flip (or the removal of a persistent
+\* instance): the address leaves the REPLICATED set.  An instance that is ephemeral by now is not replicated state and
+\* stays (Defect_EchoRemovesFlipped = the code before the fix: the entry removed whatever was stored at the address)
+RaftEchoRemove(s, a) ==
+    /\ s \in exists
+    /\ IF Has(s, a) /\ (~inst[s][a].eph \/ Defect_EchoRemovesFlipped)
+       THEN Install(RemoveOne(Cur, s, a, "", FALSE))
+       ELSE UNCHANGED <<inst, cnt, hcnt, perp, cset, emptyAt>>
+    /\ UNCHANGED <<hto, uto, index, exists, own, now>>
+    /\ ops < MaxOps /\ ops' = ops + 1
+    /\ hist' = Rec("raft_echo_remove", [op |-> "raft_echo_remove", s |-> s, a |-> a, now |-> now,
+                             obs |-> [inst |-> inst', cnt |-> cnt', hcnt |-> hcnt', perp |-> perp', cset |-> cset', index |-> index',
+                                      q_all |-> [x \in Svcs |-> QueryOfS(x, inst'[x], FALSE)], q_healthy |-> [x \in Svcs |-> QueryOfS(x, inst'[x], TRUE)], q_prot |-> [x \in Svcs |-> Protected(x, inst'[x])], prot |-> Prot]])
 
 RECURSIVE RemoveAll(_, _, _)
 RemoveAll(st, keys, c) ==
@@ -185,7 +246,7 @@ Disconnect(c) ==
     /\ ops < MaxOps /\ ops' = ops + 1
     /\ hist' = Rec("disconnect", [op |-> "disconnect", client |-> c, now |-> now,
                              obs |-> [inst |-> inst', cnt |-> cnt', hcnt |-> hcnt', perp |-> perp', cset |-> cset', index |-> index',
-                                      q_all |-> [x \in Svcs |-> QueryOf(inst'[x], FALSE)], q_healthy |-> [x \in Svcs |-> QueryOf(inst'[x], TRUE)]]])
+                                      q_all |-> [x \in Svcs |-> QueryOfS(x, inst'[x], FALSE)], q_healthy |-> [x \in Svcs |-> QueryOfS(x, inst'[x], TRUE)], q_prot |-> [x \in Svcs |-> Protected(x, inst'[x])], prot |-> Prot]])
 
 \* ------------------------------------------------------------------ Service::time_check for every service
 \* unhealthy queue first (removal), then healthy queue (mark unhealthy), each entry re-validated
@@ -222,7 +283,7 @@ TimeCheck ==
           /\ hist' = Rec("time_check", [op |-> "time_check", now |-> now,
                                    removed |-> [s \in Svcs |-> res[s].removed], marked |-> [s \in Svcs |-> res[s].marked],
                                    obs |-> [inst |-> inst', cnt |-> cnt', hcnt |-> hcnt', perp |-> perp', cset |-> cset', index |-> index',
-                                      q_all |-> [x \in Svcs |-> QueryOf(inst'[x], FALSE)], q_healthy |-> [x \in Svcs |-> QueryOf(inst'[x], TRUE)]]])
+                                      q_all |-> [x \in Svcs |-> QueryOfS(x, inst'[x], FALSE)], q_healthy |-> [x \in Svcs |-> QueryOfS(x, inst'[x], TRUE)], q_prot |-> [x \in Svcs |-> Protected(x, inst'[x])], prot |-> Prot]])
     /\ ops < MaxOps /\ ops' = ops + 1
 
 \* services without instances disappear from the map and the index
@@ -236,7 +297,7 @@ ClearEmpty ==
     /\ ops < MaxOps /\ ops' = ops + 1
     /\ hist' = Rec("clear_empty", [op |-> "clear_empty", now |-> now,
                              obs |-> [inst |-> inst', cnt |-> cnt', hcnt |-> hcnt', perp |-> perp', cset |-> cset', index |-> index',
-                                      q_all |-> [x \in Svcs |-> QueryOf(inst'[x], FALSE)], q_healthy |-> [x \in Svcs |-> QueryOf(inst'[x], TRUE)]]])
+                                      q_all |-> [x \in Svcs |-> QueryOfS(x, inst'[x], FALSE)], q_healthy |-> [x \in Svcs |-> QueryOfS(x, inst'[x], TRUE)], q_prot |-> [x \in Svcs |-> Protected(x, inst'[x])], prot |-> Prot]])
 
 \* ------------------------------------------------------------------ NamingActor::refresh_process_range
 \* the range of services this node is responsible for becomes newOwn; in every service of the new range the instances
@@ -256,7 +317,7 @@ RefreshRange(newOwn) ==
     /\ ops < MaxOps /\ ops' = ops + 1
     /\ hist' = Rec("refresh_range", [op |-> "refresh_range", own |-> newOwn, now |-> now,
                              obs |-> [inst |-> inst', cnt |-> cnt', hcnt |-> hcnt', perp |-> perp', cset |-> cset', index |-> index',
-                                      q_all |-> [x \in Svcs |-> QueryOf(inst'[x], FALSE)], q_healthy |-> [x \in Svcs |-> QueryOf(inst'[x], TRUE)]]])
+                                      q_all |-> [x \in Svcs |-> QueryOfS(x, inst'[x], FALSE)], q_healthy |-> [x \in Svcs |-> QueryOfS(x, inst'[x], TRUE)], q_prot |-> [x \in Svcs |-> Protected(x, inst'[x])], prot |-> Prot]])
 
 Tick ==
     /\ now < MaxNow /\ now' = now + 1
@@ -264,7 +325,7 @@ Tick ==
     /\ ops < MaxOps /\ ops' = ops + 1
     /\ hist' = Rec("tick", [op |-> "tick", now |-> now + 1,
                              obs |-> [inst |-> inst', cnt |-> cnt', hcnt |-> hcnt', perp |-> perp', cset |-> cset', index |-> index',
-                                      q_all |-> [x \in Svcs |-> QueryOf(inst'[x], FALSE)], q_healthy |-> [x \in Svcs |-> QueryOf(inst'[x], TRUE)]]])
+                                      q_all |-> [x \in Svcs |-> QueryOfS(x, inst'[x], FALSE)], q_healthy |-> [x \in Svcs |-> QueryOfS(x, inst'[x], TRUE)], q_prot |-> [x \in Svcs |-> Protected(x, inst'[x])], prot |-> Prot]])
 
 Init ==
     /\ inst = [s \in Svcs |-> [a \in {} |-> 0]]
@@ -283,6 +344,8 @@ Next ==
     \/ \E s \in Svcs, a \in Addrs, c \in Clients \cup {""} : Deregister(s, a, c)
     \/ \E c \in Clients : Disconnect(c)
     \/ \E o \in SUBSET Svcs : RefreshRange(o)
+    \/ \E s \in Svcs, a \in Addrs : RaftEchoUpdate(s, a)
+    \/ \E s \in Svcs, a \in Addrs : RaftEchoRemove(s, a)
     \/ TimeCheck
     \/ ClearEmpty
     \/ Tick
@@ -328,6 +391,12 @@ ExpiredAfterSweep ==
     [][(ops' = ops + 1 /\ hist'[Len(hist')].op = "time_check") =>
          \A s \in Svcs : \A a \in DOMAIN inst[s] :
             (TimeoutEnabled(inst[s][a]) /\ inst[s][a].h /\ inst[s][a].lm <= now - H) => (a \in DOMAIN inst'[s] => ~inst'[s][a].h)]_vars
+
+\* C12 "no registered address is missing": what the node replicates about persistent instances never takes a registered
+\* EPHEMERAL instance away (the applied removal that follows a persistent -> ephemeral re-registration must leave it)
+EchoKeepsEphemeral ==
+    [][(ops' = ops + 1 /\ hist'[Len(hist')].op = "raft_echo_remove") =>
+         \A s \in Svcs : \A a \in DOMAIN inst[s] : inst[s][a].eph => (a \in DOMAIN inst'[s] /\ inst'[s][a] = inst[s][a])]_vars
 
 NoRange == own = {}
 Done == ops = MaxOps
